@@ -22,25 +22,24 @@ def _one(L):
     for i in range(pad):
         exp[L + i] = [0] * 8
     ws = bpa.analyse(ctx.mod, FN, lambda: ([Ptr(FC.PDU, 0), L], {FC.PDU: Region(FC.PDU, 'sym', total)}),
-                     max_worlds=2, gcache=ctx.gcache)
+                     max_worlds=16, gcache=ctx.gcache)
     where = FC.fnloc(ctx, FN)
     key = 'Vss:pad:L%d' % L
-    if len(ws) != 1 or ws[0].status != 'ok':
-        return [('undecided', key, '%s (length %d): %s' % (where, L, [w.reason for w in ws]))], 0
-    w = ws[0]
+    oks, err = FC.ok_worlds(ws)
+    if err:
+        return [('undecided', key, '%s (length %d): %s' % (where, L, err))], 0
     out = []
-    n_ok = 0
-    st, text = c06.compare_image(w.regions[FC.PDU], exp, total)
-    if st != 'ok':
-        out.append((st, key + ':image', '%s: message length %d: %s' % (where, L, text)))
-    else:
-        n_ok += 1
-    if w.oob:
-        out.append(('violation', key + ':beyond', '%s: message length %d: %s - outside the %d octets of message plus padding'
-                    % (where, L, FC.fmt_oob(w.oob[0]), total)))
-    else:
-        n_ok += 1
-    return out, n_ok
+    for w in oks:
+        with FC.with_world(w.decisions):
+            st, text = c06.compare_image(w.regions[FC.PDU], exp, total)
+        if st != 'ok':
+            out.append((st, key + ':image', '%s: message length %d: %s' % (where, L, text)))
+        if w.oob:
+            out.append(('violation', key + ':beyond', '%s: message length %d: %s - outside the %d octets of message plus padding'
+                        % (where, L, FC.fmt_oob(w.oob[0]), total)))
+        if out:
+            break
+    return out, (0 if out else 2)
 
 
 def run(ctx, tier, res, tag=''):
